@@ -11,8 +11,10 @@ namespace Gaftools.TieA
 open Gaftools.Conv
 
 theorem mergeNodes_gen_eq_model (n1 n2 : SNode) (o1 o2 : Bool) : Gen.mergeNodes n1 n2 o1 o2 = Conv.mergeNodes n1 n2 o1 o2 := by
-  unfold Gen.mergeNodes Conv.mergeNodes
-  cases o1 <;> cases o2 <;> simp <;> (repeat' split) <;> simp_all
+  first
+    | rfl
+    | (unfold Gen.mergeNodes Conv.mergeNodes
+       cases o1 <;> cases o2 <;> simp <;> (repeat' split) <;> simp_all)
 
 /-- `gfa.E_DIR` as translated from the source is the table the graph model uses (C07, C14, C15) -/
 theorem eDir_gen_eq_model (a b : Bool) : Gen.eDir a b = Gaftools.Gfa.eDir a b := by
